@@ -833,6 +833,25 @@ def bnaf_violation(seed, dim, tol):
     return None
 
 
+def f32_small_root_violation(xv, tol=1e-9):
+    """float32 (x64 off), a preimage of small magnitude and a requested tolerance BELOW float32's machine epsilon: float32 resolves
+    |x| ~ 1e-3 to ~1e-10, so the inverter must still reach `tol` (up to the resolution at |x|, |y|) — a floor `tol >= eps` (eps is the
+    spacing at magnitude ONE) silently gives up three orders of accuracy"""
+    import flowjax.bijections as B
+    with jax.enable_x64(False):
+        b = B.Scale(jnp.asarray([1.5], jnp.float32))
+        inv = AutoregressiveBisectionInverter(lower=-1.0, upper=1.0, tol=tol, max_iter=200)
+        x = jnp.asarray([xv], jnp.float32)
+        y = b.transform(x)
+        xb = inv(b, y, None)
+        err = float(np.abs(np.asarray(xb, np.float64) - np.asarray(x, np.float64))[0])
+        ulp = float(np.spacing(np.float32(max(abs(float(x[0])), abs(float(y[0]))))))
+    allowed = tol + 16 * ulp
+    if not err <= allowed:
+        return dict(law="|root - r| <= max(tol, (hi0-lo0)/2^(max_iter+1)) + float resolution (float32, small |x|, tol below eps)", x=xv, tol=tol, err=err, allowed=allowed)
+    return None
+
+
 def flat_steep_cases(rng, n):
     """linear functions with very flat / very steep slopes (dyadic, exact roots), tight tolerances"""
     cases = []
@@ -882,6 +901,15 @@ def search(hints, tier, rng):
                             kind="ar", case=e, jit=jit, **v))
             if len(wit) >= 5:
                 return wit
+    for xv in (3e-3, 1.7e-3, -2.3e-3, 5e-4, -7.1e-4, 9.3e-3):
+        try:
+            v = f32_small_root_violation(xv)
+        except Exception as ex:  # noqa: BLE001
+            v = dict(law="inverter does not raise in float32", exc=repr(ex)[:200])
+        if v:
+            wit.append(dict(key=f"f32-small-root|x={xv}", kind="f32small", xv=xv, **v))
+            if len(wit) >= 5:
+                return wit
     for seed in range(3 if quick else 20):
         dim = 1 + seed % 4
         try:
@@ -900,6 +928,11 @@ def replay(w):
         return oracle_scalar(_dec(w["case"]), w["jit"]) is not None
     if w["kind"] == "ar":
         return oracle_ar(_dec_ar(w["case"]), w["jit"]) is not None
+    if w["kind"] == "f32small":
+        try:
+            return f32_small_root_violation(w["xv"]) is not None
+        except Exception:  # noqa: BLE001
+            return True
     if w["kind"] == "bnaf":
         try:
             return bnaf_violation(w["seed"], w["dim"], 1e-6) is not None
